@@ -502,13 +502,14 @@ pub fn build_and_run(case: &Case) -> Outcome {
         let (st, panics) = run_virtual(async { run_internet_with_timeout(&machines, horizon).await });
         (st.map(|s| format!("{s:?}")).unwrap_or("panicked".into()), panics, false)
     } else {
-        global_capture(true);
-        let rt = tokio::runtime::Builder::new_multi_thread().worker_threads(case.workers).enable_time().build().expect("runtime");
+        let (rt, name) = mt_runtime(case.workers);
         let st = std::panic::catch_unwind(std::panic::AssertUnwindSafe(|| rt.block_on(async { run_internet_with_timeout(&machines, horizon).await }))).ok();
+        // panics up to the return of the run; tearing the runtime down afterwards cancels tasks in arbitrary
+        // order (Machine::start then sees JoinError::Cancelled), which is not part of the run
+        let mut panics = take_mt_panics(&name);
+        panics.extend(take_local_panics());
         rt.shutdown_timeout(Duration::from_millis(200));
-        global_capture(false);
-        let panics = take_global_panics();
-        let _ = take_local_panics();
+        let _ = take_mt_panics(&name);
         let wd = matches!(st, Some(elvis_core::ExitStatus::TimedOut));
         (st.map(|s| format!("{s:?}")).unwrap_or("panicked".into()), panics, wd)
     };
